@@ -11,7 +11,7 @@ claim("C02",
       MODEL + FMT + "The direct query over every byte string does not fit (out of memory at 6 bytes); the general claim rests on the composition and on the uniqueness of the RFC 7252 delta/length encoding.",
       "Kani/CBMC bounded model checking; composition of C03 and C01 plus direct re-encode on concrete layouts", "DESIGN.md section 3 C02")
 claim("C03",
-      "Every byte string of length 0..7 (quick; 0..8 thorough) is decided against a three-valued RFC 7252 reference parser: no panic/overflow/out-of-bounds read (Kani's implicit checks), must-reject => Err, must-accept => Ok; framing equality (numbers, lengths, counts, payload range) for every string up to 6 bytes (7 thorough); byte-for-byte content equality on concrete single-option layouts reaching one- and two-byte extended deltas and a one-byte extended length. The thorough tier adds the 8-byte verdict and 7-byte framing harnesses (20 minutes, 22 GB each).",
+      "Every byte string of length 0..6 (quick; 0..7 and 0..8 thorough) is decided against a three-valued RFC 7252 reference parser: no panic/overflow/out-of-bounds read (Kani's implicit checks), must-reject => Err, must-accept => Ok; framing equality (numbers, lengths, counts, payload range) for every string up to 6 bytes (7 thorough); byte-for-byte content equality on concrete single-option layouts reaching one- and two-byte extended deltas and a one-byte extended length. The thorough tier adds the 7- and 8-byte verdict harnesses, the 7-byte framing harness and a two-option content layout (8-20 minutes, up to 22 GB each).",
       MODEL + FMT + "Datagrams longer than the bound are outside; that 8 bytes exercise the loop body from every loop state is an argument, not a query.",
       "Kani/CBMC bounded model checking of Packet::from_bytes against a three-valued reference parser", "DESIGN.md section 3 C03")
 claim("C04",
